@@ -587,6 +587,14 @@ func (e *Engine) chanInvSweep(used map[string]bool, prop string) *fnTrans {
 			if !ok {
 				return
 			}
+			if ci.ElemText != "" {
+				// keyed by element type: every channel of that element type counts (unless a field-keyed
+				// invariant takes precedence for it)
+				if e.chanInvByElem(ct.Elem()) != ci || (k != "" && e.contracts.ChanInvs[k] != nil) {
+					return
+				}
+				k = key
+			}
 			if k == key {
 				elem = ct.Elem()
 				if what == "close" {
@@ -624,7 +632,7 @@ func (e *Engine) chanInvSweep(used map[string]bool, prop string) *fnTrans {
 			}
 		}
 		o := &Obligation{Name: "sweep/chaninv[" + ci.Short + "]", Fn: "sweep", Kind: "sweep", Props: []string{prop},
-			Desc: "every send into " + ci.Short + " is an obligation of a verified function and the channel is never closed"}
+			Desc: "every send into " + ci.Short + " is an obligation of a verified function and such a channel is never closed"}
 		var unchecked []string
 		if elem != nil {
 			es := types.TypeString(elem, nil)
